@@ -260,9 +260,9 @@ func registrations(fn *ssa.Function) []registration {
 		}
 		switch calleeName(c.Common()) {
 		case "(*martian/fifo.Group).AddRequestModifier":
-			out = append(out, registration{describe(c.Common().Args[0]), describe(c.Common().Args[1]), "request", c})
+			out = append(out, registration{describe(refArgs(c.Common())[0]), describe(refArgs(c.Common())[1]), "request", c})
 		case "(*martian/fifo.Group).AddResponseModifier":
-			out = append(out, registration{describe(c.Common().Args[0]), describe(c.Common().Args[1]), "response", c})
+			out = append(out, registration{describe(refArgs(c.Common())[0]), describe(refArgs(c.Common())[1]), "response", c})
 		}
 	})
 	return out
@@ -476,18 +476,18 @@ func c04r5(r *R) {
 	er := r.method(".", "HTTPProxy", "errorResponse")
 	var setPA, setEH *ssa.Call
 	for _, c := range calls(er, nameIs("(net/http.Header).Set")) {
-		k, _ := constString(c.Common().Args[1])
+		k, _ := constString(refArgs(c.Common())[1])
 		switch k {
 		case "Proxy-Authenticate":
 			setPA = c.(*ssa.Call)
 		case "X-Forwarder-Error":
 			setEH = c.(*ssa.Call)
 		}
-		if g, ok := c.Common().Args[1].(*ssa.Const); ok && g.Value != nil && g.Value.Kind() == constant.String {
+		if g, ok := refArgs(c.Common())[1].(*ssa.Const); ok && g.Value != nil && g.Value.Kind() == constant.String {
 			_ = g
 		}
 	}
-	okPA := setPA != nil && guardedBy(setPA.Block(), func(s string) bool { return strings.HasSuffix(s, " == 407)") && !strings.HasPrefix(s, "!") }) && strings.HasPrefix(describe(setPA.Common().Args[2]), `fmt.Sprintf("Basic realm=%q"`)
+	okPA := setPA != nil && guardedBy(setPA.Block(), func(s string) bool { return strings.HasSuffix(s, " == 407)") && !strings.HasPrefix(s, "!") }) && strings.HasPrefix(describe(refArgs(setPA.Common())[2]), `fmt.Sprintf("Basic realm=%q"`)
 	r.check(okPA, "errorResponse#challenge", er.Pos(), "Proxy-Authenticate: Basic realm=… set iff the status is 407", "the 407 response does not get a Basic challenge (or it is set for other statuses)")
 	okEH := setEH != nil && !escapesFromEntry(er, setEH)
 	r.check(okEH, "errorResponse#error-header", er.Pos(), "X-Forwarder-Error set on every path", "X-Forwarder-Error is not set on every error response")
@@ -564,7 +564,7 @@ func c04r7(r *R) {
 	for _, fn := range r.modFuncs() {
 		for _, c := range callsToFunc(fn, il) {
 			n++
-			d := describe(c.Common().Args[1])
+			d := describe(refArgs(c.Common())[1])
 			r.check(strings.HasPrefix(d, "(*net/url.URL).Hostname("), fname(fn)+"#isLocalhost.arg", c.Pos(), "classified on "+d, "isLocalhost is given "+d+" (port and brackets must be removed: URL.Hostname())")
 		}
 	}
@@ -604,10 +604,10 @@ func c04r7(r *R) {
 			}
 		})
 		for _, c := range calls(fn, nameIs("builtin append")) {
-			if !strings.HasSuffix(describe(c.Common().Args[0]), ".localhost") {
+			if !strings.HasSuffix(describe(refArgs(c.Common())[0]), ".localhost") {
 				continue
 			}
-			src := c.Common().Args[1]
+			src := refArgs(c.Common())[1]
 			// every element of src was overwritten by its lower-cased form in a loop before the append
 			eachInstr(fn, func(ins ssa.Instruction) {
 				st, ok := ins.(*ssa.Store)
@@ -632,7 +632,7 @@ func c04r7(r *R) {
 func errorsAsTarget(fn *ssa.Function) string {
 	out := ""
 	for _, c := range calls(fn, nameIs("errors.As")) {
-		a := unbox(c.Common().Args[1])
+		a := unbox(refArgs(c.Common())[1])
 		p, ok := a.Type().Underlying().(*types.Pointer)
 		if !ok {
 			return ""
